@@ -128,6 +128,20 @@ def local_names(fn):
     return names
 
 
+def table_read(value):
+    """`T[k]`, `T.get(k[, d])`, and either of them as the non-None arm of `x if c else None`: -> (table Name node, key) or None."""
+    if isinstance(value, ast.IfExp):
+        if isinstance(value.orelse, ast.Constant) and value.orelse.value is None:
+            value = value.body
+        elif isinstance(value.body, ast.Constant) and value.body.value is None:
+            value = value.orelse
+    if isinstance(value, ast.Subscript) and isinstance(value.value, ast.Name) and not isinstance(value.slice, ast.Slice):
+        return value.value, value.slice
+    if isinstance(value, ast.Call) and isinstance(value.func, ast.Attribute) and value.func.attr == "get" and isinstance(value.func.value, ast.Name) and value.args:
+        return value.func.value, value.args[0]
+    return None
+
+
 def resolve_alias(fn, pm, name, at, depth=0):
     """Follow `name = other` chains: when every binding of `name` before `at` assigns the same local name, that name."""
     if depth > 6:
@@ -234,6 +248,12 @@ class Slicer:
             self.emit(b.node, ast.Assign(targets=[ast.Name(id=name, ctx=ast.Store())], value=ast.Name(id="__target", ctx=ast.Load())))
             self.sl.sources["__target"] = "target"
             return
+        tr = table_read(value)
+        if tr is not None and not isinstance(value, ast.Subscript) and tr[0].id in self.locals \
+                and map_stores(self.fn, resolve_alias(self.fn, self.pm, tr[0].id, b.node)):
+            # `table.get(key[, default])` / `table[key] if c else None` on a local lookup table: like `table[key]` (the other arm is
+            # the absent case, which never reaches a read of the container)
+            value = ast.copy_location(ast.Subscript(value=tr[0], slice=tr[1], ctx=ast.Load()), value)
         if isinstance(value, ast.Subscript) and isinstance(value.value, ast.Name) and value.value.id in self.locals \
                 and not isinstance(value.slice, ast.Slice):
             mname = resolve_alias(self.fn, self.pm, value.value.id, b.node)
